@@ -79,6 +79,10 @@ func (h *handler) ListRelationTuples(ctx context.Context, req *rts.ListRelationT
 		return nil, herodot.ErrBadRequest.WithError("you must provide a query")
 	}
 
+	if req.PageSize < 0 {
+		return nil, herodot.ErrBadRequest.WithError("page_size must not be negative")
+	}
+
 	iq, err := h.d.ReadOnlyMapper().FromQuery(ctx, &q)
 	if err != nil {
 		return nil, err
@@ -149,6 +153,10 @@ func (h *handler) getRelations(w http.ResponseWriter, r *http.Request, _ httprou
 		s, err := strconv.ParseInt(pageSize, 0, 0)
 		if err != nil {
 			h.d.Writer().WriteError(w, r, herodot.ErrBadRequest.WithError(err.Error()))
+			return
+		}
+		if s < 0 {
+			h.d.Writer().WriteError(w, r, herodot.ErrBadRequest.WithError("page_size must not be negative"))
 			return
 		}
 		paginationOpts = append(paginationOpts, x.WithSize(int(s)))
